@@ -169,7 +169,11 @@ func VerifyJWS(jwsStr string, jwk *jws.JWK, opts ...ParseOpt) (*JSONWebSignature
 		return nil, err
 	}
 
-	sInput, err := signingInput(parsedJWS.ProtectedHeaders, parsedJWS.Payload)
+	// the signature covers the protected header as it was transmitted (RFC 7515, section 5.2), not a
+	// re-serialization of the parsed header: re-serializing changes e.g. the spelling of large numbers
+	protected := strings.Split(jwsStr, ".")[jwsHeaderPart]
+
+	sInput, err := signingInputOf(protected, parsedJWS.ProtectedHeaders, parsedJWS.Payload)
 	if err != nil {
 		return nil, fmt.Errorf("build signing input: %w", err)
 	}
@@ -266,6 +270,11 @@ func signingInput(headers jws.Headers, payload []byte) ([]byte, error) {
 		return nil, fmt.Errorf("serialize JWS headers: %w", err)
 	}
 
+	return signingInputOf(base64.RawURLEncoding.EncodeToString(headersBytes), headers, payload)
+}
+
+// signingInputOf builds the signing input from the (base64url encoded) protected header segment.
+func signingInputOf(headersStr string, headers jws.Headers, payload []byte) ([]byte, error) {
 	hBase64 := true
 
 	if b64, ok := headers[jws.HeaderB64Payload]; ok {
@@ -273,8 +282,6 @@ func signingInput(headers jws.Headers, payload []byte) ([]byte, error) {
 			return nil, errors.New("invalid b64 header")
 		}
 	}
-
-	headersStr := base64.RawURLEncoding.EncodeToString(headersBytes)
 
 	var payloadStr string
 
